@@ -192,6 +192,17 @@ func pipelineCases(seed uint64, thorough bool) []pcase {
 		add(fmt.Sprintf("width/%dx9/alpha", w), mkImage(r.Fork(), "blocks", w, 9, "grad"), func(o *webp.EncoderOptions) { o.Quality, o.Method = 85, k%5 })
 		add(fmt.Sprintf("width/%dx10/opaque", w), mkImage(r.Fork(), "noise", w, 10, ""), func(o *webp.EncoderOptions) { o.Quality, o.Method = 60, (k+2)%7 })
 	}
+	// wide and flat: rows longer than every internal scratch / batch threshold
+	// (stack scratch of the amd64 upsampler: 2048 packed UV entries per row pair)
+	for i, sz := range [][2]int{{1025, 2}, {1537, 3}, {2048, 3}, {2049, 2}, {4097, 2}, {1024, 2}, {2047, 1}} {
+		i, w, h := i, sz[0], sz[1]
+		img := mkImage(r.Fork(), []string{"gradient", "blocks", "noise"}[i%3], w, h, []string{"grad", "binary", "noise"}[i%3])
+		add(fmt.Sprintf("wide/%dx%d/lossy-alpha", w, h), img, func(o *webp.EncoderOptions) { o.Quality, o.Method = 70, i%3 })
+		add(fmt.Sprintf("wide/%dx%d/lossless", w, h), img, func(o *webp.EncoderOptions) { o.Lossless, o.Method, o.Quality = true, i%4, 40 })
+		if i%2 == 0 {
+			add(fmt.Sprintf("wide/%dx%d/lossy-opaque", w, h), mkImage(r.Fork(), "edges", w, h, ""), func(o *webp.EncoderOptions) { o.Quality, o.Method = 50, 1 })
+		}
+	}
 	for m := 0; m <= 6; m++ {
 		m := m
 		add(fmt.Sprintf("lossless-method/m%d/40x24", m), mkImage(r.Fork(), []string{"blocks", "gradient", "noise"}[m%3], 40, 24, []string{"", "grad", "binary"}[m%3]), func(o *webp.EncoderOptions) {
@@ -252,10 +263,14 @@ func pipelineWorker() {
 	defer out.Flush()
 	fmt.Fprintf(out, "build goarch=%s variants=%d avx2=%v\n", runtime.GOARCH, len(webp.VerifArchVariants()), webp.VerifArchHasAVX2())
 	for _, pc := range pipelineCases(seed, thorough) {
+		var encoded []byte
 		line := func() (s string) {
 			defer func() {
 				if r := recover(); r != nil {
-					s = fmt.Sprintf("panic:%v", r)
+					s = "panic:" + strings.Join(strings.Fields(fmt.Sprint(r)), "_")
+					if len(encoded) > 0 && len(encoded) <= 1<<16 {
+						s += " webp_hex=" + hex.EncodeToString(encoded)
+					}
 				}
 			}()
 			var buf bytes.Buffer
@@ -263,6 +278,7 @@ func pipelineWorker() {
 				return "encode-err"
 			}
 			s = fmt.Sprintf("enc=%d:%s", buf.Len(), digest(buf.Bytes()))
+			encoded = buf.Bytes()
 			im, err := webp.Decode(bytes.NewReader(buf.Bytes()))
 			if err != nil {
 				return s + " decode-err"
@@ -523,8 +539,23 @@ func overlayStart(c *Ctx) *overlayWork {
 		}
 		args := []string{"build", "-tags", "verif", "-overlay", ov}
 		if repoDir() != "/repo" {
-			// a run against another tree (bin/mutrun): bin/check wrote a go.mod whose replace points there
-			args = append(args, "-modfile", filepath.Join(verif, "build", "go.alt.mod"))
+			// a run against another tree (bin/mutrun): the harness module's replace must
+			// point there too, otherwise the overlay (keyed by file path) does not apply.
+			// Private modfile (+ sum) in our own temp dir: concurrent mutation runs
+			// share build/go.alt.mod and may rewrite it between bin/check's build and ours.
+			mod, err1 := os.ReadFile(filepath.Join(verif, "harness", "go.mod"))
+			alt := filepath.Join(ovDir, "go.c13.mod")
+			if err1 == nil {
+				err1 = os.WriteFile(alt, []byte(strings.Replace(string(mod), "=> /repo", "=> "+repoDir(), 1)), 0o644)
+			}
+			if sum, err := os.ReadFile(filepath.Join(verif, "harness", "go.sum")); err == nil {
+				os.WriteFile(filepath.Join(ovDir, "go.c13.sum"), sum, 0o644)
+			}
+			if err1 != nil {
+				w.buildOut = "cannot write the private modfile: " + err1.Error()
+				return
+			}
+			args = append(args, "-modfile", alt)
 		}
 		args = append(args, "-o", portable, "./c13")
 		cmd := exec.Command("go", args...)
@@ -574,6 +605,13 @@ func pipeline(c *Ctx, w *overlayWork) {
 				c.Violate("pipeline:stream-not-decodable", "a hand-assembled VP8 stream is rejected by the decoder (generator out of date?)", map[string]any{"case": name, "normal": a, "portable": b})
 			}
 		}
+		for which, res := range map[string]string{"normal": a, "portable": b} {
+			if strings.HasPrefix(res, "panic:") {
+				rp := map[string]any{"case": name, "build": which, "result": res, "seed": c.Seed, "tier": c.Tier,
+					"how": "harness/c13 pipelineCases(seed, tier) regenerates the picture and options from the case name; webp_hex (when present) is the encoded file whose Decode panicked"}
+				c.Violate("pipeline-panic:"+kind+":"+which, "Encode/Decode panicked in the "+which+" build", rp)
+			}
+		}
 		if a == b {
 			c.Count("pipeline/" + kind + "/identical")
 			c.Nontrivial("pipeline/" + name)
@@ -609,6 +647,9 @@ func pipeline(c *Ctx, w *overlayWork) {
 			for _, name := range order {
 				a, b := nres[name], w.sse2only.res[name]
 				c.D.Evaluations++
+				if strings.HasPrefix(b, "panic:") {
+					c.Violate("pipeline-panic:avx2-off", "Encode/Decode panicked in the normal build with AVX2 switched off", map[string]any{"case": name, "result": b, "seed": c.Seed, "tier": c.Tier})
+				}
 				if a == b {
 					c.Count("pipeline-avx2-off/identical")
 					continue
